@@ -52,6 +52,36 @@ def plan(tier, seed):
     cases = 20000 if quick else 150000
     units = [Unit('C04-gxx-%d' % i, 'gxx', 'props/C04.h', part, rc_cases=cases, enum_max=2 ** 16, chunk=10)
              for i, part in enumerate(split(regs, 16))]
+    # sweeps over every exponent / shift distance (one site per dozen exponents): conversions whose scale factor is 2^k for every k,
+    # in particular k at and around word boundaries (31, 32, 63, 64)
+    ESI = 'cnl::elastic_scaled_integer'
+    sweeps = [  # (alias name, template body with E, label, lo, hi)
+        ('F2I_f64_s64', 'c04::F2I<double, %s>' % sc(S64, 0).replace('<0>', '<E>'), 'f2i|sweep|f64|long', -70, 70),
+        ('F2I_f32_s32', 'c04::F2I<float, %s>' % sc(S32, 0).replace('<0>', '<E>'), 'f2i|sweep|f32|int', -70, 70),
+        ('F2I_f80_u64', 'c04::F2I<long double, %s>' % sc(U64, 0).replace('<0>', '<E>'), 'f2i|sweep|f80|unsigned_long', -70, 70),
+        ('I2F_s64_f64', 'c04::I2F<%s, double>' % sc(S64, 0).replace('<0>', '<E>'), 'i2f|sweep|long|f64', -70, 70),
+        ('I2F_s32_f32', 'c04::I2F<%s, float>' % sc(S32, 0).replace('<0>', '<E>'), 'i2f|sweep|int|f32', -70, 70),
+        ('I2F_u64_f80', 'c04::I2F<%s, long double>' % sc(U64, 0).replace('<0>', '<E>'), 'i2f|sweep|unsigned_long|f80', -70, 70),
+        ('I2I_s64_s64', 'c04::I2I<%s, %s, 0>' % (sc(S64, 0).replace('<0>', '<E>'), sc(S64, 0)), 'i2i|sweep|long:E|long:0', -62, 62),
+        ('I2I_s32_s64', 'c04::I2I<%s, %s, 1>' % (sc(S32, 0).replace('<0>', '<E>'), sc(S64, 0)), 'i2i|sweep|int:E|long:0', -30, 29),
+        ('I2I_u64_u32', 'c04::I2I<%s, %s, 0>' % (sc(U64, 0).replace('<0>', '<E>'), sc(U32, 0)), 'i2i|sweep|unsigned_long:E|unsigned:0', -63, 30),
+        ('I2I_e62_e62', 'c04::I2I<%s<62, cnl::power<E>>, %s<62, cnl::power<0>>, 0>' % (ESI, ESI), 'i2i|sweep|elastic62:E|elastic62:0', -61, 61),
+        ('I2I_e48_e17', 'c04::I2I<%s<48, cnl::power<E>>, %s<17, cnl::power<0>>, 1>' % (ESI, ESI), 'i2i|sweep|elastic48:E|elastic17:0', -47, 40),
+        ('I2I_eu64_eu32', 'c04::I2I<%s<64, cnl::power<E>, unsigned>, %s<32, cnl::power<0>, unsigned>, 0>' % (ESI, ESI), 'i2i|sweep|elastic64u:E|elastic32u:0', -63, 30),
+        ('I2I_e40_int', 'c04::I2I<%s<40, cnl::power<E>>, long, 0>' % ESI, 'i2i|sweep|elastic40:E|builtin_long', -39, 20),
+    ]
+    step = 12
+    prelude = ''.join('template<int E> using %s = %s;\n' % (n, body) for n, body, _, _, _ in sweeps)
+    sregs = []
+    for n, body, label, lo, hi in sweeps:
+        for a in range(lo, hi + 1, step):
+            cnt = min(step, hi + 1 - a)
+            tail = ('|assign' if body.rstrip('>').rstrip().endswith(', 1') else '|cast') if 'I2I' in n else ''
+            sregs.append('vf::Sweep<%s, %d, %d>::reg("C04|%s|%dto%d%s")' % (n, a, cnt, label, a, a + cnt - 1, tail))
+    if quick:
+        sregs = [r for r in sregs if not (('f2i' in r or 'i2f' in r) and ('f32' in r or 'f80' in r) and sregs.index(r) % 2)]
+    units += [Unit('C04-sweep-%d' % i, 'gxx', 'props/C04.h', part, rc_cases=cases * 3, enum_max=0, chunk=4, prelude=prelude)
+              for i, part in enumerate(split(sregs, 14))]
     cl = [r for r in regs if 'F2I' in r or 'I2F' in r][:30] + [r for r in regs if 'I2I' in r][:20]
     units.append(Unit('C04-clang', 'clang', 'props/C04.h', cl, rc_cases=cases, enum_max=2 ** 16, chunk=10))
     return dict(units=units, rule=RULE, assumptions=['MPFR as the reference for correct rounding to float/double/long double'])
